@@ -12,6 +12,7 @@ QUICK_RUNS = 8000
 THOROUGH_MIN_RUNS = 40000
 BATCH = 50
 CASE_WALL_S = 60.0
+ISOLATE = True      # every run in a forked child: no interpreter state leaks from one simulated server to the next
 RULE = ("case = the real Arbiter under a continuous seeded stream of short and long client requests with 1-3 HUPs at seeded "
         "simulated times or system-call indices of the master; the configuration source changes `workers` and a marker before "
         "each HUP; workers are scripted stubs (family stub) or the real SyncWorker / ThreadWorker (family full).  Kernel-level "
@@ -47,7 +48,14 @@ def make_case(index, rng, tier):
         dur = rng.choice([0, 0, 0.2, 0.8, 1.5])
         clients.append({"t": round(tc, 2), "dur": dur})
         tc += rng.uniform(0.15, 0.9)
+    if clients and rng.randrange(2) == 0:
+        # a HUP at the very instant a client connects: the old worker's TERM can then land between its loop check and accept()
+        h = rng.choice(hups)
+        c = rng.choice(clients)
+        c["t"] = h["t"]
+        h["tick"] = None
     return {"family": fam, "kind": kind, "workers": rng.randrange(1, 4), "hups": hups, "clients": clients,
+            "fine": rng.choice([0, 0, 2, 3]),
             "graceful_timeout": rng.choice([2, 3, 4]), "threads": rng.randrange(1, 3),
             "buggify": {"fork_child_first": rng.randrange(2) == 0, "spurious_select": rng.randrange(3) == 0,
                         "random_spawn_delay": rng.randrange(2) == 0, "short_recv": rng.randrange(4) == 0}}
@@ -57,6 +65,7 @@ def run(case, choices):
     res = Result()
     sim = Sim(choices, max_steps=200000, max_time=200.0)
     sim.buggify = dict(case["buggify"])
+    sim.fine_interleave = case.get("fine", 0)
     gt = case["graceful_timeout"]
     fam = case["family"]
     cfg = {"workers": case["workers"], "timeout": 30, "graceful_timeout": gt, "bind": ["127.0.0.1:8000"], "proc_name": "m0",
@@ -212,3 +221,5 @@ def shrink(case):
     for k, v in case["buggify"].items():
         if v:
             yield dict(case, buggify=dict(case["buggify"], **{k: False}))
+    if case.get("fine"):
+        yield dict(case, fine=0)
